@@ -1375,6 +1375,11 @@ func (n *normalizer) stmt(s ast.Stmt, st *inlState, mayHoist bool) []ast.Stmt {
 			cc.Body = n.stmts(cc.Body, st)
 		}
 	}
+	if d, isDefer := s.(*ast.DeferStmt); isDefer && mayHoist {
+		if pre, ok := n.deferThrough(d, st); ok {
+			return pre
+		}
+	}
 	n.funcLitsOfStmt(s, st)
 	if !mayHoist {
 		return []ast.Stmt{s}
